@@ -1,6 +1,243 @@
-import OVM.IO.Ascii.Parse
+import OVM.IO.Ascii.RtFinal
+/-
+  C06, OVM-ASCII half.  Subject: `print` / `write` (lean/OVM/IO/Ascii/Print.lean, the model of
+  `FileManager::writeStream`) and `parse` (lean/OVM/IO/Ascii/Parse.lean, the model of
+  `FileManager::readStream`); both are tied to the code by the differential run of
+  tools/props/io_ascii.py (same bytes to model and C++, result class and mesh compared).
+
+  Positions and floating property values are number *tokens* (the text `ostream <<` printed): "to its
+  printed precision" is equality of tokens; rounding/printing of doubles is not modelled (DESIGN §9).
+
+  Domain (all hypotheses are decidable on a concrete file, see the examples at the end):
+    * `WFTopo lim F`   position tokens are floating literals `operator>>` reads back verbatim
+                       (`FloatTok`), handles in range, no face without halfedges, every count and valence
+                       within the reader's allocation limit `lim` (`lim < 2^31`: handles are `int`s)
+    * `Accepts cfg F`  the target mesh type takes every face and cell as written (always so for a
+                       polyhedral mesh read without topology check; for tet/hex meshes and with the
+                       check on: the mesh is one that passes — C06's "for meshes that pass it")
+    * `WFProps lim F`  per property: a registered value type (all 28 of TypeNames.cc), one value per
+                       entity, every value well formed for the type (`WFVal`: integers in the range of
+                       their C type, `FloatTok` floats, strings of any bytes up to `lim`, containers up
+                       to `lim`, `map_heh_int` with increasing keys), a non-empty name without line end
+                       that does not END in '"'; pairwise distinct (kind, type, name); if
+                       `VProp vec3d "ovm:position"` is listed it holds the positions.
+  Restrictions that are genuine (false without them, see findings/A1-char-whitespace.md and the
+  `example`s below): `char`/`uchar` values must not be white space; names must not end in '"'.
+
+  Theorems:
+    * `write_pending_refused`      pending deletions ⇒ nothing is written
+    * `roundtrip_topology`         no property blocks: `parse (print F) = F`
+    * `roundtrip_props`            all value types: `parse (print F) = sortProps F` — `F` with its
+                                   properties listed by entity kind (V,E,HE,F,HF,C,M; order within a kind
+                                   kept), which is the order of the blocks in the file
+    * `roundtrip_props_set`        the same read as a statement about the *set* of properties
+    * `second_roundtrip_same_bytes`, `second_roundtrip_fixpoint`   a second round trip changes nothing
+    * `write_roundtrip`            the three combined on a `MeshView`
+-/
 namespace OVM.Ascii
-/-- placeholder until the round-trip theorems land (replaced below in this session) -/
+
+/-- **C06 (pending deletions)**: a mesh that still has pending deletions is refused. -/
 theorem write_pending_refused (m : MeshView) (h : m.needsGC = true) : write m = none := by
   simp [write, h]
+
+theorem parse_of_readAll (cfg : Cfg) (input : Str) (st : RS) (h : readAll cfg input = st) (he : st.err = none) :
+    (parse cfg input).res = .ok st.file := by
+  unfold parse
+  simp only [h, he]
+
+-- the reader is never evaluated on symbolic input below (projections of `parse …` would otherwise be
+-- unfolded by the unifier)
+attribute [local irreducible] readAll
+
+/-- **C06 (round trip, all property types)**: a written file reads back as the same mesh: same counts,
+    same positions (as tokens), same edge / face / cell definitions handle for handle, and the same
+    persistent properties (entity kind, name, value type, values), stored in the order of the file. -/
+theorem roundtrip_props (cfg : Cfg) (F : AFile) (hwf : WFTopo cfg.lim F) (hacc : Accepts cfg F)
+    (hp : WFProps cfg.lim F) : (parse cfg (print F)).res = .ok (sortProps F) := by
+  obtain ⟨st, h1, h2, h3⟩ := readAll_print cfg F hwf hacc hp
+  rw [parse_of_readAll cfg _ st h1 h2, h3]
+
+theorem sortProps_noProps (F : AFile) (hp : F.props = []) : sortProps F = F := by
+  cases F
+  simp only at hp
+  simp [sortProps, sortedProps, propsOf, hp, Ent.all]
+
+theorem wfProps_nil (lim : Nat) (F : AFile) (hp : F.props = []) : WFProps lim F :=
+  ⟨fun p h => by rw [hp] at h; simp at h, by rw [hp]; exact List.Pairwise.nil⟩
+
+/-- **C06 (topology)**: a file without property blocks reads back as itself. -/
+theorem roundtrip_topology (cfg : Cfg) (F : AFile) (hp : F.props = []) (hwf : WFTopo cfg.lim F)
+    (hacc : Accepts cfg F) : (parse cfg (print F)).res = .ok F := by
+  rw [roundtrip_props cfg F hwf hacc (wfProps_nil cfg.lim F hp), sortProps_noProps F hp]
+
+/-- the read-back file has the topology of `F` and exactly the properties of `F` (as a set; all keys
+    are distinct, so nothing is merged or lost) -/
+theorem roundtrip_props_set (cfg : Cfg) (F : AFile) (hwf : WFTopo cfg.lim F) (hacc : Accepts cfg F)
+    (hp : WFProps cfg.lim F) :
+    ∃ G, (parse cfg (print F)).res = .ok G ∧ G.verts = F.verts ∧ G.edges = F.edges ∧ G.faces = F.faces ∧
+      G.cells = F.cells ∧ (∀ p, p ∈ G.props ↔ p ∈ F.props) ∧ G.props.length = F.props.length ∧
+      ∀ k, propsOf G k = propsOf F k :=
+  ⟨sortProps F, roundtrip_props cfg F hwf hacc hp, rfl, rfl, rfl, rfl, fun _ => mem_sortedProps,
+    by
+      have h1 := sortedProps_pairwise F hp.keys
+      show (sortedProps F).length = F.props.length
+      simp only [sortedProps, propsOf, List.length_flatMap, Ent.all, List.map_cons, List.map_nil, List.sum_cons,
+        List.sum_nil]
+      have : ∀ ps : List PropRec,
+          (ps.filter (fun p => p.ent == .v)).length + ((ps.filter (fun p => p.ent == .e)).length +
+          ((ps.filter (fun p => p.ent == .he)).length + ((ps.filter (fun p => p.ent == .f)).length +
+          ((ps.filter (fun p => p.ent == .hf)).length + ((ps.filter (fun p => p.ent == .c)).length +
+          ((ps.filter (fun p => p.ent == .m)).length + 0)))))) = ps.length := by
+        intro ps
+        induction ps with
+        | nil => rfl
+        | cons q qs ih =>
+          simp only [List.filter_cons, List.length_cons]
+          cases hq : q.ent <;> simp <;> omega
+      exact this F.props,
+    propsOf_sortProps F⟩
+
+/-- `Accepts` is no restriction for a polyhedral mesh read without topology check -/
+theorem accepts_poly_nochk (cfg : Cfg) (F : AFile) (hk : cfg.kind = .poly) (hc : cfg.chk = false)
+    (hwf : WFTopo cfg.lim F) : Accepts cfg F := by
+  constructor
+  · intro f hf
+    have hb := (hwf.faces f hf).2
+    have hany : (f.any fun h => decide (F.edges.length ≤ h / 2)) = false := by
+      rw [List.any_eq_false]
+      intro x hx
+      have := hb x hx
+      simp; omega
+    simp [faceDec, hk, valenceOk, hany, hc]
+  · intro c hcm
+    have hany := any_oob_false (hwf.cells c hcm)
+    simp [cellDec, hk, cellDecBase, hany, hc]
+
+/-- **C06 (a second round trip changes nothing)**, bytes: writing what was read gives the same file -/
+theorem second_roundtrip_same_bytes (cfg : Cfg) (F G : AFile) (hwf : WFTopo cfg.lim F) (hacc : Accepts cfg F)
+    (hp : WFProps cfg.lim F) (h : (parse cfg (print F)).res = .ok G) : print G = print F := by
+  rw [roundtrip_props cfg F hwf hacc hp] at h
+  cases h
+  exact print_sortProps F
+
+/-- **C06 (a second round trip changes nothing)**, mesh: reading that file again gives the same mesh -/
+theorem second_roundtrip_fixpoint (cfg : Cfg) (F G : AFile) (hwf : WFTopo cfg.lim F) (hacc : Accepts cfg F)
+    (hp : WFProps cfg.lim F) (h : (parse cfg (print F)).res = .ok G) : (parse cfg (print G)).res = .ok G := by
+  rw [second_roundtrip_same_bytes cfg F G hwf hacc hp h, h]
+
+/-- **C06, OVM-ASCII**: `writeStream` either refuses (pending deletions) or produces a text that
+    `readStream` reads back as the mesh that was written. -/
+theorem write_roundtrip (cfg : Cfg) (m : MeshView) (hwf : WFTopo cfg.lim m.file) (hacc : Accepts cfg m.file)
+    (hp : WFProps cfg.lim m.file) :
+    (m.needsGC = true → write m = none) ∧
+    (m.needsGC = false → ∃ text, write m = some text ∧ (parse cfg text).res = .ok (sortProps m.file)) := by
+  refine ⟨write_pending_refused m, fun h => ⟨print m.file, by simp [write, h], roundtrip_props cfg m.file hwf hacc hp⟩⟩
+
+end OVM.Ascii
+
+/-! ### non-vacuity: one tetrahedron with properties of several types satisfies every hypothesis -/
+namespace OVM.Ascii
+
+set_option maxRecDepth 100000
+set_option exponentiation.threshold 2048
+
+def cfgTet (chk : Bool) : Cfg := ⟨.tet, chk, 1000, fun _ hfs => some hfs⟩
+def cfgPoly (chk : Bool) : Cfg := ⟨.poly, chk, 1000, fun _ hfs => some hfs⟩
+
+def tetProps : List PropRec :=
+  [⟨.m, .sc .str, kw "note", [.sc (.str (kw "two words\n# and a second line"))]⟩,
+   ⟨.v, .sc .i32, kw "w", [.sc (.int 5), .sc (.int (-6)), .sc (.int 7), .sc (.int 8)]⟩,
+   ⟨.c, .tup 3 .f32, kw "dir \"x\" axis", [.tup [.flt (kw "1.5"), .flt (kw "-2e+10"), .flt (kw "0")]]⟩,
+   ⟨.v, .sc .f64, kw "w", [.sc (.flt (kw "0.25")), .sc (.flt (kw "1e-05")), .sc (.flt (kw "3")), .sc (.flt (kw "-0"))]⟩,
+   ⟨.c, .vecvec .hfh, kw "vv", [.vecvec [[.int 3, .int (-1)], []]]⟩,
+   ⟨.m, .map, kw "m", [.map [(-1, 2), (4, 5)]]⟩,
+   ⟨.m, .sc .chr, kw "c", [.sc (.chr 35)]⟩]
+
+def tetFile (ps : List PropRec) : AFile :=
+  { verts := [(kw "0", kw "0", kw "0"), (kw "1", kw "0", kw "0"), (kw "0", kw "1", kw "0"), (kw "0", kw "0", kw "1")]
+    edges := [(0, 1), (1, 2), (2, 0), (0, 3), (1, 3), (2, 3)]
+    faces := [[0, 2, 4], [0, 8, 7], [2, 10, 9], [4, 6, 11]]
+    cells := [[1, 2, 4, 6]]
+    props := ps }
+
+theorem tet_wfTopo0 : WFTopo 1000 (tetFile []) :=
+  ⟨by decide, by decide, by decide, by decide, by decide, by decide, by decide, by decide, by decide, by decide, by decide⟩
+
+/-- (the topology hypotheses do not look at the property list) -/
+theorem tet_wfTopo (ps : List PropRec) : WFTopo 1000 (tetFile ps) :=
+  have h := tet_wfTopo0
+  ⟨h.lim31, h.posTok, h.edges, h.faces, h.cells, h.nV, h.nE, h.nF, h.nC, h.fval, h.cval⟩
+
+theorem tet_accepts0 (chk : Bool) : Accepts (cfgTet chk) (tetFile []) := by
+  cases chk <;> exact ⟨by decide, by decide⟩
+theorem tet_accepts (chk : Bool) (ps : List PropRec) : Accepts (cfgTet chk) (tetFile ps) :=
+  ⟨(tet_accepts0 chk).faces, (tet_accepts0 chk).cells⟩
+
+theorem tet_accepts_poly0 (chk : Bool) : Accepts (cfgPoly chk) (tetFile []) := by
+  cases chk <;> exact ⟨by decide, by decide⟩
+theorem tet_accepts_poly (chk : Bool) (ps : List PropRec) : Accepts (cfgPoly chk) (tetFile ps) :=
+  ⟨(tet_accepts_poly0 chk).faces, (tet_accepts_poly0 chk).cells⟩
+
+theorem wfProp_of_dec (lim : Nat) (F : AFile) (p : PropRec) (h1 : p.ty ∈ regTypes)
+    (h2 : p.name.getLast? ≠ none ∧ p.name.getLast? ≠ some cQuote) (h3 : ∀ c ∈ p.name, c ≠ cNL)
+    (h4 : p.vals.length = F.count p.ent) (h5 : ∀ v ∈ p.vals, WFVal lim p.ty v)
+    (h6 : isPosKey p.ent p.ty p.name = true → p.vals = F.verts.map valOfPos) : WFProp lim F p := by
+  refine ⟨h1, ?_, h3, h4, h5, h6⟩
+  rcases List.eq_nil_or_concat p.name with h | ⟨init, z, h⟩
+  · rw [h] at h2; exact absurd rfl h2.1
+  · refine ⟨init, z, by simpa using h, ?_⟩
+    intro hz
+    apply h2.2
+    rw [h, hz]; simp
+
+theorem tet_wfProps : WFProps 1000 (tetFile tetProps) := by
+  refine ⟨?_, by decide⟩
+  intro p hp
+  simp only [tetFile, tetProps, List.mem_cons, List.not_mem_nil, or_false] at hp
+  rcases hp with rfl | rfl | rfl | rfl | rfl | rfl | rfl <;>
+    exact wfProp_of_dec _ _ _ (by decide) (by decide) (by decide) (by decide) (by decide) (by decide)
+
+/-- the hypotheses of `roundtrip_props`, `roundtrip_props_set`, `second_roundtrip_*`, `write_roundtrip` hold
+    for the tetrahedron with seven properties, read as a tetrahedral mesh with the topology check on -/
+example : (parse (cfgTet true) (print (tetFile tetProps))).res = .ok (sortProps (tetFile tetProps)) :=
+  roundtrip_props _ _ (tet_wfTopo _) (tet_accepts _ _) tet_wfProps
+
+example : (parse (cfgTet true) (print (sortProps (tetFile tetProps)))).res = .ok (sortProps (tetFile tetProps)) :=
+  second_roundtrip_fixpoint _ _ _ (tet_wfTopo _) (tet_accepts _ _) tet_wfProps
+    (roundtrip_props _ _ (tet_wfTopo _) (tet_accepts _ _) tet_wfProps)
+
+/-- … and of `roundtrip_topology` for the bare tetrahedron, in all four tet/poly × check configurations -/
+example (chk : Bool) : (parse (cfgTet chk) (print (tetFile []))).res = .ok (tetFile []) :=
+  roundtrip_topology _ _ rfl (tet_wfTopo _) (tet_accepts _ _)
+example (chk : Bool) : (parse (cfgPoly chk) (print (tetFile []))).res = .ok (tetFile []) :=
+  roundtrip_topology _ _ rfl (tet_wfTopo _) (tet_accepts_poly _ _)
+
+example : write ⟨tetFile tetProps, true⟩ = none := write_pending_refused _ rfl
+
+/-- the order in which the seven properties come back -/
+example : (sortProps (tetFile tetProps)).props.map (fun p => (p.ent, p.name)) =
+    [(.v, kw "w"), (.v, kw "w"), (.c, kw "dir \"x\" axis"), (.c, kw "vv"), (.m, kw "note"), (.m, kw "m"), (.m, kw "c")] := by
+  decide
+
+/-! ### the restrictions are genuine (evaluations of the model on single inputs: tests, not proofs) -/
+
+def okFile (o : Outcome) : Option AFile := match o.res with | .ok F => some F | .error _ => none
+
+/-- a `char` property holding a blank does not survive (finding A1-char-whitespace): the reader skips
+    white space and takes the next character — here it runs into the end and keeps the default 0 -/
+example : okFile (parse (cfgPoly false) (print (tetFile [⟨.m, .sc .chr, kw "c", [.sc (.chr 32)]⟩]))) =
+    some (tetFile [⟨.m, .sc .chr, kw "c", [.sc (.chr 0)]⟩]) := by decide
+
+/-- … and with a block behind it, it swallows the first letter of the next declaration, which is then
+    no longer recognised: the second property is lost -/
+example : okFile (parse (cfgPoly false) (print (tetFile [⟨.c, .sc .chr, kw "c", [.sc (.chr 32)]⟩, ⟨.m, .sc .i32, kw "n", [.sc (.int 1)]⟩]))) =
+    some (tetFile [⟨.c, .sc .chr, kw "c", [.sc (.chr 77)]⟩]) := by decide
+
+/-- a name ending in a quote character comes back without it -/
+example : okFile (parse (cfgPoly false) (print (tetFile [⟨.m, .sc .i32, kw "a\"", [.sc (.int 1)]⟩]))) =
+    some (tetFile [⟨.m, .sc .i32, kw "a", [.sc (.int 1)]⟩]) := by decide
+
+/-- an integer outside its C type is clamped and the block is refused (`fail() && !eof()`) -/
+example : okFile (parse (cfgPoly false) (print (tetFile [⟨.m, .sc .i16, kw "s", [.sc (.int 40000)]⟩]))) = none := by decide
+
 end OVM.Ascii
